@@ -16,6 +16,8 @@ func init() {
 	alias("C01", "R9", "C02", "R4", "agreement needs locks to be released only by a later polka")
 	alias("C01", "R10", "C02", "R3", "agreement needs every block precommit to be justified by a polka in its round")
 	alias("C04", "R8", "C02", "R5", "the persisted sign state only protects across restarts if the signer refuses height/round/step regressions and reuses signatures correctly")
+	alias("C12", "R6", "C05", "R6", "mempool contents stay current only if CheckTx is excluded during commit/update")
+	alias("C12", "R7", "C05", "R5", "the update lock must be taken and the connection flushed around commit")
 	alias("C02", "R6", "C01", "R3", "a precommit for a block goes with locking on it")
 	alias("C02", "R7", "C01", "R4", "after precommitting (locking) a block the validator prevotes nothing else")
 }
